@@ -204,6 +204,37 @@ fn sweep(ctx: &Ctx, res: &mut PartResult, which: &str) {
                 }
             }
         }
+        "long" => {
+            // long strings in every role: a run of one symbol up to and across the sizes at which buffers, caps or
+            // chunked processing could come into play, followed by a short tail of the symbols that need escaping
+            let mut lens: Vec<usize> = Vec::new();
+            for c in [64usize, 128, 256, 512, 1024, 4096] {
+                for d in 0..7 {
+                    lens.push(c - 3 + d);
+                }
+            }
+            if thorough {
+                for c in [2048usize, 8192, 16384, 65536] {
+                    for d in 0..5 {
+                        lens.push(c - 2 + d);
+                    }
+                }
+            }
+            for pad in ["a", "\"", "\\", "\n", "é"] {
+                for n in &lens {
+                    for tail in ["", "\"", "\\", "\n", "\\n", "x\"y"] {
+                        let v = format!("{}{}", pad.repeat(*n), tail);
+                        cases.push(Case { label_val: v.clone(), label2_val: Some("w".into()), ..base(Kind::Gauge) });
+                        cases.push(Case { global: Some(("gk".into(), v.clone())), ..base(Kind::Histogram) });
+                        cases.push(Case { desc: Some(v.clone()), ..base(Kind::Counter) });
+                        if tail.is_empty() || thorough {
+                            cases.push(Case { name: v.clone(), ..base(Kind::Summary) });
+                            cases.push(Case { label_key: v.clone(), label2_val: Some("w".into()), ..base(Kind::Counter) });
+                        }
+                    }
+                }
+            }
+        }
         "pairs" => {
             let two = vseq::strings(&SIGMA, 2);
             let cl = vseq::strings(&CLASSES, if thorough { 4 } else { 3 });
@@ -271,7 +302,7 @@ fn sweep(ctx: &Ctx, res: &mut PartResult, which: &str) {
 }
 
 fn parts(ctx: &Ctx) -> Vec<PartSpec> {
-    ["name", "label_key", "label_val", "global_val", "global_key", "desc", "pairs", "units"].iter().map(|w| PartSpec::new(&format!("e3-{}", w), json!({"which": w})).budget(if ctx.quick() { 150.0 } else { 2400.0 })).collect()
+    ["name", "label_key", "label_val", "global_val", "global_key", "desc", "pairs", "units", "long"].iter().map(|w| PartSpec::new(&format!("e3-{}", w), json!({"which": w})).budget(if ctx.quick() { 150.0 } else { 2400.0 })).collect()
 }
 
 fn run(ctx: &Ctx, spec: &PartSpec) -> PartResult {
